@@ -24,6 +24,33 @@ OVERLAY = {
     "core/timex/relativetime.go": os.path.join(vlib.HARNESS, "overlay/timex/relativetime.go"),
 }
 
+WK = ["WGrpcClient", "WGrpcServerUnary", "WGrpcServerStream", "WRedisCmd", "WRedisIgnoredCmd", "WRedisPipeline",
+      "WRedisReal", "WSqlExec", "WSqlPredicate"]
+DERR = ["DNil", None, "DCtxCanceled", "DCtxDeadline", "DBreakerUnavailable", "DRedisNil", "DWrappedRedisNil",
+        "DSqlNoRows", "DSqlTxDone", "DSqlAcceptable", "DOther", "DPanic", "DWrappedCanceled"]
+# wrapper executors: case["w"] -> (go package, overlay test file, downstream classes it understands)
+WPKG = {
+    "grpcc": ("zrpc/internal/clientinterceptors", "grpc_client_verif_test.go", [0], [0, 1, 2, 3, 4, 10, 11, 12]),
+    "grpcs": ("zrpc/internal/serverinterceptors", "grpc_server_verif_test.go", [1, 2], [0, 1, 2, 3, 4, 10, 11, 12]),
+    "redis": ("core/stores/redis", "redis_verif_test.go", [3, 4, 5, 6], [0, 2, 3, 4, 5, 6, 10, 11, 12]),
+    "sql": ("core/stores/sqlx", "sqlx_verif_test.go", [7, 8], [0, 2, 3, 4, 7, 8, 9, 10, 12]),
+    "rest": ("rest/handler", "rest_verif_test.go", [], []),
+}
+
+
+def wrapper_overlay(w):
+    pkg, tf = WPKG[w][0], WPKG[w][1]
+    ov = {
+        pkg + "/verif_c01w_test.go": os.path.join(vlib.HARNESS, "overlay/wrappers", tf),
+        "core/breaker/verif_probe.go": os.path.join(vlib.HARNESS, "overlay/breaker/verif_probe.go"),
+        "core/mathx/proba_verif.go": os.path.join(vlib.HARNESS, "overlay/mathx/proba_verif.go"),
+        "core/timex/relativetime.go": os.path.join(vlib.HARNESS, "overlay/timex/relativetime.go"),
+    }
+    if w == "rest":   # the handler's breaker is private: its draws come from a replaced proba.go
+        ov["core/mathx/proba.go"] = os.path.join(vlib.HARNESS, "overlay/mathx/proba_global.go")
+    return ov
+
+
 # The shared evaluator puts 400 cases in one coqc process; C01 histories cost up to ~1 s each
 # (400 calls x 40 buckets, exact rationals), so spread them over all cores.  This wraps the
 # shared function for this process only (tools/check.py loads a single property module).
@@ -177,7 +204,37 @@ class C01(Property):
                                             [{"id": 0, "base": 10 ** 12, "calls": [call()]}], tag="c01p", timeout=600)
         if rc != 0 or len(res) != 1 or res[0].get("err"):
             return False, out + "\n" + str(res)
+        smoke = [{"id": 0, "w": "grpcc", "wcalls": [[0, 0, 0, 0, 0]]}, {"id": 1, "w": "grpcs", "wcalls": [[1, 0, 0, 0, 0]]},
+                 {"id": 2, "w": "redis", "wcalls": [[3, 0, 0, 0, 0]]}, {"id": 3, "w": "sql", "wcalls": [[7, 0, 0, 0, 0]]},
+                 {"id": 4, "w": "rest", "base": 10 ** 15, "reqs": [[0, 200, 0, 0, 0]]}]
+        try:
+            self._run_wrappers(smoke)
+        except ExecError as e:
+            return False, str(e)
         return True, ""
+
+    def _run_wrappers(self, cases):
+        """cases: wrapper cases (any mix); returns {case id: obs rows}."""
+        import concurrent.futures
+        groups = {}
+        for c in cases:
+            groups.setdefault(c["w"], []).append(c)
+
+        def work(w):
+            cs = groups[w]
+            rc, out, res = vlib.go_test_overlay("./" + WPKG[w][0], wrapper_overlay(w), "TestVerifC01W", cs,
+                                                tag="c01w_" + w, timeout=900)
+            if rc != 0 or len(res) != len(cs):
+                raise ExecError("c01 wrapper executor %s rc=%s (%d/%d results): %s" % (w, rc, len(res), len(cs), out[-2000:]))
+            for r in res:
+                if r.get("err"):
+                    raise ExecError("c01 wrapper executor %s: case %s: %s" % (w, r.get("id"), r["err"]))
+            return {r["id"]: r["obs"] for r in res}
+        merged = {}
+        with concurrent.futures.ThreadPoolExecutor(max_workers=5) as ex:
+            for part in ex.map(work, list(groups)):
+                merged.update(part)
+        return merged
 
     # ---- cases
     def corpus(self):
@@ -235,6 +292,7 @@ class C01(Property):
         calls = [call(0, 0, 1, gap=10 * MS, m=big) for _ in range(100)]
         calls += [call(2, 0, 1, gap=0, m=thr - 4096), call(2, 0, 1, gap=0, m=(94 * TWO53) // 100)]
         cs.append({"base": B, "calls": calls})
+        cs += self._wrapper_corpus()
         # minimised past failures
         d = os.path.join(vlib.ROOT, "corpus", "C01")
         if os.path.isdir(d):
@@ -337,9 +395,64 @@ class C01(Property):
             sched.append([rng.choice([len(calls), len(calls) + 3, 0]), 5])   # no-op actions
         return {"base": 10 ** 15 + rng.randrange(IV), "calls": calls, "conc": {"sched": sched}}
 
+    def _wrapper_case(self, rng):
+        w = rng.choice(["grpcc", "grpcs", "redis", "sql", "rest", "rest"])
+        if w == "rest":
+            reqs = []
+            tempo = rng.choice(["dense", "dense", "medium"])
+            p5 = rng.choice([0.3, 0.6, 0.9, 1.0])
+            for _ in range(rng.randint(5, 120)):
+                r = rng.random()
+                code = rng.choice([500, 500, 502, 503, 504, 599]) if rng.random() < p5 else rng.choice([0, 200, 201, 301, 400, 404, 429, 499])
+                kind = 0 if r < 0.9 else (1 if r < 0.95 else 2)
+                if kind == 2 and code == 0:
+                    code = 500
+                dur = 0 if rng.random() < 0.8 else rng.randrange(0, IV)
+                reqs.append([kind, code, self._gap(rng, tempo), dur, self._draw(rng)])
+            return {"w": "rest", "base": 10 ** 15 + rng.randrange(IV), "reqs": reqs}
+        _, _, kinds, classes = WPKG[w]
+        calls = []
+        for _ in range(rng.randint(8, 40)):
+            k = rng.choice(kinds)
+            cls = rng.choice(classes)
+            if k == 6:
+                cls = rng.choice([0, 5, 10])
+            if k in (7, 8) and cls == 11:
+                cls = 10
+            calls.append([k, rng.choice([0, 0, 1]), rng.choice([0, 0, 0, 1]), cls, rng.randint(1, 16) if cls == 1 else 0])
+        return {"w": w, "wcalls": calls}
+
+    def _wrapper_corpus(self):
+        cs = []
+        for w in ("grpcc", "grpcs", "redis", "sql"):
+            _, _, kinds, classes = WPKG[w]
+            calls = []
+            for k in kinds:
+                cl = [0, 5, 10] if k == 6 else [c for c in classes if not (k in (7, 8) and c == 11)]
+                for cls in cl:
+                    for code in (range(1, 17) if cls == 1 else [0]):
+                        for rej in ((0,) if k == 8 else (0, 1)):
+                            for cd in ((0,) if k == 8 else (0, 1)):
+                                if k == 6 and rej + cd == 2:
+                                    continue
+                                calls.append([k, rej, cd, cls, code])
+            cs.append({"w": w, "wcalls": calls})
+        B = 10 ** 15 + 777
+        big = TWO53 - 1
+        # REST: 2xx/4xx accepted, 5xx rejected, a panicking handler, then throttling with forced draws
+        reqs = [[0, 0, 0, 0, 0], [0, 404, MS, 0, 0], [0, 499, MS, 0, 0], [0, 500, MS, 0, 0], [1, 0, MS, 0, 0], [2, 503, MS, 0, 0]]
+        reqs += [[0, 500, MS, 0, 0] for _ in range(12)] + [[0, 200, MS, 0, big], [0, 200, SEC + 1, 0, 0], [0, 200, 1, 0, 0]]
+        cs.append({"w": "rest", "base": B, "reqs": reqs})
+        reqs = [[0, 503, 0, 0, 0] for _ in range(30)] + [[0, 200, IV, 3 * MS, big] for _ in range(10)] + [[0, 200, 0, 0, 0] for _ in range(10)]
+        cs.append({"w": "rest", "base": B, "reqs": reqs})
+        return cs
+
     def gen(self, rng, n, tier):
         cases = []
         for _ in range(n):
+            if rng.random() < 0.08:
+                cases.append(self._wrapper_case(rng))
+                continue
             if rng.random() < 0.15:
                 cases.append(self._conc(rng))
                 continue
@@ -396,13 +509,31 @@ class C01(Property):
 
     # ---- execution
     def execute(self, cases, ctx):
-        rc, out, res = vlib.go_test_overlay("./core/breaker", OVERLAY, "TestVerifC01", cases, tag="c01", timeout=900)
-        if rc != 0 or len(res) != len(cases):
-            raise ExecError("c01 executor rc=%s (%d/%d results): %s" % (rc, len(res), len(cases), out[-2000:]))
-        for r in res:
-            if r.get("err"):
-                raise ExecError("c01 executor: case %s: %s" % (r.get("id"), r["err"]))
-        return [{"obs": r["obs"]} for r in res]
+        # the executors key their output by case id: make ids unique within this batch
+        saved = [c.get("id") for c in cases]
+        for i, c in enumerate(cases):
+            c["id"] = i
+        try:
+            main = [c for c in cases if not c.get("w")]
+            wrap = [c for c in cases if c.get("w")]
+            byid = {}
+            if main:
+                rc, out, res = vlib.go_test_overlay("./core/breaker", OVERLAY, "TestVerifC01", main, tag="c01", timeout=900)
+                if rc != 0 or len(res) != len(main):
+                    raise ExecError("c01 executor rc=%s (%d/%d results): %s" % (rc, len(res), len(main), out[-2000:]))
+                for r in res:
+                    if r.get("err"):
+                        raise ExecError("c01 executor: case %s: %s" % (r.get("id"), r["err"]))
+                    byid[r["id"]] = r["obs"]
+            if wrap:
+                byid.update(self._run_wrappers(wrap))
+            return [{"obs": byid[i]} for i in range(len(cases))]
+        finally:
+            for c, i in zip(cases, saved):
+                if i is None:
+                    c.pop("id", None)
+                else:
+                    c["id"] = i
 
     # ---- Coq rendering
     def _call(self, k):
@@ -413,7 +544,29 @@ class C01(Property):
         return "mkI %s %s %s %s %s %s %s" % (res, cz(o[1]), cz(o[2]), cbool(o[3] == 1), cz(o[4]), cz(o[5]),
                                           " ".join(cz(x) for x in o[6:16]))
 
+    def _derr(self, cls, code):
+        return "(DStatus %s)" % cz(code) if cls == 1 else DERR[cls]
+
+    def _seen(self, kind, code):
+        return {0: "SNil", 1: "SSame", 2: "SBreakerUnavailable", 3: "(SStatus %s)" % cz(code), 4: "SCtxErr", 5: "SPanic",
+                6: "(SBool %s)" % cbool(code == 1)}.get(kind, "(SStatus (-1))")
+
+    def _hreq(self, q):
+        out = {0: "(HCode %s)" % cz(q[1] or 200), 1: "(HPanic None)", 2: "(HPanic (Some %s))" % cz(q[1])}[q[0]]
+        return "mkHReq %s %s %s (mkU %d)" % (out, cz(q[2]), cz(q[3]), q[4])
+
     def coq_case(self, case, obs):
+        if case.get("w") == "rest":
+            rs = clist([self._hreq(q) for q in case["reqs"]])
+            ro = clist(["mkRO %s (%s %s)" % (cz(o[0]), "RSCode" if o[1] == 0 else "RSPanic" if o[1] == 1 else "RSCode (-1) ; RSPanic", cz(o[2]))
+                        if o[1] in (0, 1) else "mkRO %s (RSPanic (-1))" % cz(o[0]) for o in obs["obs"]])
+            return "mkCase %s [] [] [] [] [] [] [] %s %s" % (cz(case["base"]), rs, ro)
+        if case.get("w"):
+            wc = clist(["mkWC %s %s %s %s" % (WK[k[0]], cbool(k[1] == 1), cbool(k[2] == 1), self._derr(k[3], k[4]))
+                        for k in case["wcalls"]])
+            wo = clist(["mkWO %s %s %s %s %s" % (cz(o[0]), cz(o[1]), cz(o[2]), cz(o[3]), self._seen(o[4], o[5]))
+                        for o in obs["obs"]])
+            return "mkCase 0 [] [] [] [] [] %s %s [] []" % (wc, wo)
         calls = clist([self._call(k) for k in case["calls"]])
         if case.get("conc"):
             sched = case["conc"]["sched"]
@@ -423,8 +576,8 @@ class C01(Property):
             so = clist(["mkS " + " ".join(cz(x) for x in r) for r in srows])
             to = clist(["mkT %s %s %s %s %s" % (cz(r[0]), RES[r[1]] if 0 <= r[1] < len(RES) else "ROther",
                                                cz(r[2]), cz(r[3]), cbool(r[4] == 1)) for r in trows])
-            return "mkCase %s %s [] %s %s %s" % (cz(case["base"]), calls, sc, so, to)
-        return "mkCase %s %s %s [] [] []" % (cz(case["base"]), calls, clist([self._obs(o) for o in obs["obs"]]))
+            return "mkCase %s %s [] %s %s %s [] [] [] []" % (cz(case["base"]), calls, sc, so, to)
+        return "mkCase %s %s %s [] [] [] [] [] [] []" % (cz(case["base"]), calls, clist([self._obs(o) for o in obs["obs"]]))
 
     # ---- statistics
     def _near_ties(self, case, obs):
@@ -453,6 +606,10 @@ class C01(Property):
         return obs["obs"][:n], obs["obs"][n:]
 
     def nontrivial(self, case, obs):
+        if case.get("w") == "rest":
+            return any(o[0] == 0 for o in obs["obs"]) and any(q[1] >= 500 for q in case["reqs"])
+        if case.get("w"):
+            return any(o[3] == 1 for o in obs["obs"]) and any(o[2] == 1 for o in obs["obs"]) and any(o[1] == 1 for o in obs["obs"])
         if case.get("conc"):
             _, trows = self._conc_rows(case, obs)
             pos = {}
@@ -470,6 +627,18 @@ class C01(Property):
         return rej and thr and len(set(k[0] for k in case["calls"])) >= 3
 
     def features(self, case, obs):
+        if case.get("w") == "rest":
+            fs = ["wrap_rest"]
+            if any(o[0] == 0 for o in obs["obs"]):
+                fs.append("wrap_rest_503")
+            if any(o[1] == 1 for o in obs["obs"]):
+                fs.append("wrap_rest_panic")
+            return fs
+        if case.get("w"):
+            fs = ["wrap_" + case["w"]]
+            fs += ["wrap_" + WK[k] for k in sorted(set(c[0] for c in case["wcalls"]))]
+            fs += ["wrap_call"] * len(case["wcalls"])
+            return fs
         if case.get("conc"):
             _, trows = self._conc_rows(case, obs)
             fs = ["conc", "conc_threads<=%d" % (10 * (1 + (len(case["calls"]) - 1) // 10))]
@@ -510,6 +679,22 @@ class C01(Property):
         return fs
 
     def shrink_candidates(self, case):
+        if case.get("w"):
+            key = "reqs" if case["w"] == "rest" else "wcalls"
+            items = case[key]
+            res = []
+            n = len(items)
+            chunk = max(1, n // 2)
+            while chunk >= 1 and n > 1:
+                for i in range(0, n, chunk):
+                    c = dict(case)
+                    c[key] = items[:i] + items[i + chunk:]
+                    if c[key]:
+                        res.append(c)
+                if chunk == 1:
+                    break
+                chunk //= 2
+            return res[:200]
         if case.get("conc"):
             sched = case["conc"]["sched"]
             res = []
@@ -547,6 +732,10 @@ class C01(Property):
         return res[:240]
 
     def describe_failure(self, case, obs):
+        if case.get("w"):
+            return ("a wrapper in front of the breaker (%s) did not resolve the promise exactly once as its acceptability "
+                    "table says, ran the downstream of a rejected call, or showed the caller something else than "
+                    "503 / Unavailable / ErrServiceUnavailable" % case["w"])
         return ("on this history the implementation rejected a call although non-accepted <= 5 + 10% of accepted in the "
                 "window, or mis-accounted a call (request/fallback run count, returned error, window sums), or rejected a "
                 "call more than 1 s after the previous throttled admission, or admitted a call under total failure with a "
